@@ -119,6 +119,16 @@ def compare_tests(bi):
             out.append((e, CMP_BIN[s[1]], s[2], s[3]))
         elif s[0] == "call" and s[1][0] in ("PartialEq", "PartialOrd", "usize", "Ord") and s[1][1] in CMP_CALL and len(s[2]) == 2:
             out.append((e, CMP_CALL[s[1][1]], s[2][0], s[2][1]))
+        elif s[0] == "phi":
+            # `let all_done = a == b; if all_done {` where the local has one live comparison def
+            ts = set()
+            for d in bi.body.defs.get(s[1], []):
+                if d[0] in bi.body.reachable and not bi.body.is_cleanup(d[0]):
+                    ts.add(bi.T._of_def(s[1], d, 1))
+            if len(ts) == 1:
+                t = next(iter(ts))
+                if t[0] == "binop" and t[1] in CMP_BIN:
+                    out.append((e, CMP_BIN[t[1]], t[2], t[3]))
     bi._compare_tests = out
     return out
 
@@ -186,3 +196,143 @@ def once_on_paths(bi, starts, blocks, exits, avoid_edges=()):
 
 def fmt_edges(bi, edges):
     return ["bb%d->bb%d %s" % (a, b, bi.body.term(a).get("sp", "")) for a, b in edges]
+
+
+# ------------------------------------------------------------------------------------------------
+# integrity of a returned value: nobody mutates it in place between its production and the return
+# ------------------------------------------------------------------------------------------------
+
+def _live_defs(bi, l):
+    body = bi.body
+    return [d for d in body.defs.get(l, []) if d[0] in body.reachable and not body.is_cleanup(d[0])]
+
+
+def _owns_value(bi, l):
+    t = bi.body.local_ty(l)
+    if t["k"] in ("ref", "ptr"):
+        return False
+    if t["k"] == "adt" and t["cpath"].rsplit("::", 1)[-1] == "Pin":
+        return False
+    return True
+
+
+def carrier_locals(bi, op, limit=40):
+    """Locals that *own* the value of operand `op` on its way to the return: follows moves/copies,
+    aggregate fields, casts and by-value (moved, non-reference) call arguments backwards over the
+    definitions.  References into `self` and the parameters themselves are not carriers."""
+    from ..mir import op_place
+    body = bi.body
+    seen = set()
+    work = [op]
+    while work and len(seen) < limit:
+        o = work.pop()
+        p = op_place(o)
+        if p is None:
+            continue
+        l = p["l"]
+        if "*" in p["p"]:
+            continue    # read through a reference: the value does not live in a local
+        if l in seen or (1 <= l <= body.argc) or not _owns_value(bi, l):
+            continue
+        seen.add(l)
+        for d in _live_defs(bi, l):
+            if d[2] == "assign":
+                rv = d[3]
+                k = rv["k"]
+                if k in ("use", "cast"):
+                    work.append(rv["op"])
+                elif k == "agg":
+                    work.extend(rv["fields"])
+            elif d[2] == "call":
+                for a in d[3]["args"]:
+                    if "mv" in a:
+                        work.append(a)
+    return seen
+
+
+def in_place_mutators(bi, carriers):
+    """Call sites (non-transparent callee) that receive a `&mut` into one of the carrier locals."""
+    from ..mir import op_place
+    from ..terms import TRANSPARENT, IDENTITY_CPATHS
+    body = bi.body
+    alias = {}   # local holding &mut into carrier -> carrier
+    changed = True
+    rounds = 0
+    while changed and rounds < 6:
+        changed = False
+        rounds += 1
+        for b in sorted(body.reachable):
+            if body.is_cleanup(b):
+                continue
+            for st in body.stmts(b):
+                if st["k"] != "assign" or st["lhs"]["p"]:
+                    continue
+                rv = st["rv"]
+                dst = st["lhs"]["l"]
+                if dst in alias:
+                    continue
+                if rv["k"] == "ref" and rv.get("mut"):
+                    root = rv["place"]["l"]
+                    derefs = "*" in rv["place"]["p"]
+                    if root in carriers and not derefs:
+                        alias[dst] = root
+                        changed = True
+                    elif root in alias and derefs:
+                        alias[dst] = alias[root]
+                        changed = True
+                elif rv["k"] in ("use", "cast"):
+                    p = op_place(rv["op"])
+                    if p is not None and not p["p"] and p["l"] in alias:
+                        alias[dst] = alias[p["l"]]
+                        changed = True
+            t = body.term(b)
+            if t["k"] == "call" and not t["dest"]["p"] and t["dest"]["l"] not in alias:
+                s = bi.by_block.get(b)
+                if s is not None and not s.callee.indirect:
+                    c = s.callee
+                    if (c.key in TRANSPARENT or c.cpath in IDENTITY_CPATHS or (c.trait, c.name) in TRANSPARENT) and t["args"]:
+                        p = op_place(t["args"][0])
+                        if p is not None and not p["p"] and p["l"] in alias:
+                            alias[t["dest"]["l"]] = alias[p["l"]]
+                            changed = True
+    out = []
+    for s in bi.sites:
+        c = s.callee
+        if not c.indirect and (c.key in TRANSPARENT or c.cpath in IDENTITY_CPATHS or (c.trait, c.name) in TRANSPARENT):
+            continue
+        for a in s.t["args"]:
+            p = op_place(a)
+            if p is not None and not p["p"] and p["l"] in alias:
+                out.append((s, alias[p["l"]]))
+                break
+    return out
+
+
+def return_operands(bi, kinds):
+    """(block, operand) of the innermost payload operand of every `_0 = Poll::Ready(..)`-style
+    assignment whose classified kind is in kinds."""
+    out = []
+    body = bi.body
+    for b, i, rv in bi.assigns_to_return():
+        if rv.get("k") == "agg" and rv["fields"]:
+            t = bi.T.of_rvalue(rv, 0)
+            if classify(t)[0] in kinds:
+                out.append((b, rv["fields"][0]))
+    return out
+
+
+ALLOWED_MUTATORS = {
+    ("core::mem::swap", "swap"),       # the take idiom; each rule checks what is swapped with what
+    ("core::mem::replace", "replace"),
+    ("core::mem::take", "take"),
+}
+
+
+def rule_integrity(ctx, bi, rule, where, kinds, what):
+    ops = return_operands(bi, kinds)
+    for b, op in ops:
+        car = carrier_locals(bi, op)
+        muts = [(s, l) for s, l in in_place_mutators(bi, car) if s.key not in ALLOWED_MUTATORS]
+        ctx.check(not muts, rule, where, "%s is not modified in place between its production and the return" % what,
+                  site=bi.describe(b), path=["%s gets &mut _%d" % (s.where, l) for s, l in muts[:4]])
+    return len(ops)
